@@ -7,6 +7,7 @@
 -/
 import RsjModel.Core
 import RsjModel.Bind
+import RsjModel.EvalPure
 namespace Rsj.Eval
 open Rsj.Core
 
@@ -1218,6 +1219,283 @@ def std_sortSet (uniq : Bool) (t0 : TId) (t1 : Option TId) (d1 : Nat) : M Value 
     prev := some k
   pure (.arr out)
 
+/-! ### The pure builtins: one generic path (specs: RsjModel/EvalPure.lean) -/
+
+/-- the store-free view of a forced value that a pure builtin sees -/
+def Value.view : Value → PArg
+  | .null => .null
+  | .bool b => .bool b
+  | .num f => .num f
+  | .str s => .str s
+  | .arr items => .arr items.length
+  | .obj _ => .obj
+  | .func _ => .func
+
+def Prim.toValue : Prim → Value
+  | .null => .null
+  | .bool b => .bool b
+  | .num f => .num f
+  | .str s => .str s
+
+def PErr.toErr : PErr → Err
+  | .rt k d => .rt k d
+  | .unsupported m => .unsupported m
+  | .panic _ => .internal "pure builtin panic"
+
+/-- `do_std_modulo`: Rust `%` on f64 is C `fmod` -/
+def spec_modulo : PureSpec where
+  name := "modulo"
+  arity := 2
+  run := run2 fun a b => do
+    let x ← argNum "modulo" 0 a
+    let y ← argNum "modulo" 1 b
+    if y == 0.0 then .error (.rt "DivByZero" "")
+    let r := fmodExact x y
+    pCheckNum r
+    pure (outNum r)
+
+/-- `f64::consts::PI` -/
+def floatPi : Float := Float.ofBits 0x400921FB54442D18
+
+/-- the table of the pure builtins -/
+def pureSpec : PureB → PureSpec
+  | .substr => spec_substr
+  | .findSubstr => spec_findSubstr
+  | .startsWith => spec_startsWith
+  | .endsWith => spec_endsWith
+  | .split => spec_split
+  | .splitLimit => spec_splitLimit "splitLimit" Str.splitLimit
+  | .splitLimitR => spec_splitLimit "splitLimitR" Str.splitLimitR
+  | .strReplace => spec_strReplace
+  | .stripChars => spec_strip "stripChars" Str.stripChars
+  | .lstripChars => spec_strip "lstripChars" Str.lstripChars
+  | .rstripChars => spec_strip "rstripChars" Str.rstripChars
+  | .trim => spec_strMap "trim" Str.trim
+  | .asciiUpper => spec_strMap "asciiUpper" Str.asciiUpper
+  | .asciiLower => spec_strMap "asciiLower" Str.asciiLower
+  | .stringChars => spec_stringChars
+  | .codepoint => spec_codepoint
+  | .char => spec_char
+  | .equalsIgnoreCase => spec_equalsIgnoreCase
+  | .floor => spec_num1 "floor" (fun x => pure (outNum x.floor))
+  | .ceil => spec_num1 "ceil" (fun x => pure (outNum x.ceil))
+  | .sqrt => spec_num1 "sqrt" (fun x => do let r := x.sqrt; pCheckNum r; pure (outNum r))
+  | .isEven => spec_num1 "isEven" (fun x => pure (outBool (fmodExact x 2.0 == 0.0)))
+  | .isOdd => spec_num1 "isOdd" (fun x => pure (outBool (fmodExact x 2.0 != 0.0)))
+  | .isInteger => spec_num1 "isInteger" (fun x => pure (outBool (floatTrunc x == x)))
+  | .isDecimal => spec_num1 "isDecimal" (fun x => pure (outBool (floatTrunc x != x)))
+  | .modulo => spec_modulo
+  | .exponent => spec_num1 "exponent" (fun x => pure (outNum (intFloat (frexpBits x).2)))
+  | .mantissa => spec_num1 "mantissa" (fun x => pure (outNum (frexpBits x).1))
+  | .pow => spec_libm2 "pow"
+  | .exp => spec_libm1 "exp"
+  | .log => spec_libm1 "log"
+  | .log2 => spec_libm1 "log2"
+  | .log10 => spec_libm1 "log10"
+  | .sin => spec_libm1 "sin"
+  | .cos => spec_libm1 "cos"
+  | .tan => spec_libm1 "tan"
+  | .asin => spec_libm1 "asin"
+  | .acos => spec_libm1 "acos"
+  | .atan => spec_libm1 "atan"
+  | .atan2 => spec_libm2 "atan2"
+  | .hypot => spec_libm2 "hypot"
+  | .deg2rad => spec_num1 "deg2rad" (fun x => do let r := x * (floatPi / 180.0); pCheckNum r; pure (outNum r))
+  | .rad2deg => spec_num1 "rad2deg" (fun x => do let r := x * (180.0 / floatPi); pCheckNum r; pure (outNum r))
+  | .parseInt => spec_parseInt
+  | .parseOctal => spec_parseRadix "parseOctal" .oct "octal integer without digits:" "invalid octal digit:"
+  | .parseHex => spec_parseRadix "parseHex" .hex "hexadecimal integer without digits:" "invalid hexadecimal digit:"
+  | .base64 => spec_base64
+  | .base64Decode => spec_base64Decode
+  | .base64DecodeBytes => spec_base64DecodeBytes
+  | .encodeUTF8 => spec_encodeUTF8
+  | .decodeUTF8 => spec_decodeUTF8
+  | .escapeStringJson => spec_escape "escapeStringJson" Codec.escJson
+  | .escapeStringPython => spec_escape "escapeStringPython" Codec.escJson
+  | .escapeStringBash => spec_escape "escapeStringBash" Codec.escBash
+  | .escapeStringDollars => spec_escape "escapeStringDollars" Codec.escDollars
+  | .escapeStringXML => spec_escape "escapeStringXML" Codec.escXml
+  | .format => spec_format
+
+def pureBuiltin : Builtin → Option PureSpec
+  | .pure p => some (pureSpec p)
+  | _ => none
+
+/-- the argument thunks forced in argument order (`State::DoThunk` of `arg0` is on top of the stack), no trace items -/
+def forceAll (ts : List TId) (d1 : Nat) : M (List Value) := do
+  let mut vals : List Value := []
+  for t in ts do
+    vals := vals ++ [← rec (.force t d1)]
+  pure vals
+
+/-- `State::CoerceToString` on every forced argument -/
+def coerceAll (vals : List Value) (d1 : Nat) : M (List Value) := do
+  let mut out : List Value := []
+  for v in vals do
+    out := out ++ [.str (← coerceToString rec v d1)]
+  pure out
+
+/-- `make_value_array`: one finished thunk per item -/
+def allocPrims (items : List Prim) : M (List TId) := do
+  let mut out : List TId := []
+  for p in items do
+    out := out ++ [← allocThunk (.done p.toValue)]
+  pure out
+
+/-- the result of a pure builtin as a value of the store -/
+def pureOut (o : PureOut) : M Value :=
+  match o with
+  | .prim p => pure p.toValue
+  | .arr items => do pure (.arr (← allocPrims items))
+
+/-- the elements of an array forced one by one (no trace items), each checked right after it is forced -/
+def forceBytes (items : List TId) (item : PArg → Except PErr Nat) (d1 : Nat) : M (List Nat) := do
+  let mut bytes : List Nat := []
+  for it in items do
+    let v ← rec (.force it d1)
+    match item v.view with
+    | .ok b => bytes := bytes ++ [b]
+    | .error e => throw e.toErr
+  pure bytes
+
+/-! #### `std.format` / `%`: the values are consumed, and forced, directive by directive (`eval/format.rs`) -/
+
+/-- the thunk of a `*` width / precision, taken from the array (`do_std_format_codes_array_1`: nothing is forced yet) -/
+def fmtTakeW (spec : Option Format.FW) (items : List TId) (i : Nat) : M (Option TId × Nat) :=
+  match spec with
+  | some .ext =>
+    match items[i]? with
+    | some t => pure (some t, i + 1)
+    | none => throw (fmtErr (.notEnough items.length)).toErr
+  | _ => pure (none, i)
+
+def fmtForceOpt (t : Option TId) (d : Nat) : M (Option Value) :=
+  match t with
+  | some t => do pure (some (← rec (.force t d)))
+  | none => pure none
+
+/-- the forced value of a directive as `do_std_format_code` sees it: `%s` of a non-string goes through `ManifestJson` -/
+def fmtItem (c : Format.Code) (v : Value) (d : Nat) : M Format.Val :=
+  match v with
+  | .str s => pure (.str s.toList)
+  | v =>
+    if c.conv == .str then do pure (fmtValOfS v.view (some (← coerceToString rec v d)))
+    else pure (fmtValOf v.view)
+
+/-- one directive on an array (`array_1` → `array_2` → `StdFormatCode` → `array_3`): the `*` thunks are taken, then
+    forced (width first, the precision only if the conversion uses it), checked (precision first), then the item -/
+def fmtArrayCode (c : Format.Code) (items : List TId) (i : Nat) (d : Nat) : M (List Char × Nat) := do
+  let (fwT, i1) ← fmtTakeW c.fw items i
+  let (precT, i2) ← fmtTakeW c.prec items i1
+  let fwV ← fmtForceOpt rec fwT d
+  let precV ← fmtForceOpt rec (if Format.usesPrec c.conv then precT else none) d
+  let (fw, prec) ← match fmtPrecWidth c (fwV.map Value.view) (precV.map Value.view) with
+    | .ok r => pure r
+    | .error e => throw e.toErr
+  if c.conv == .pct then pure (Format.padField c.flags.left fw ['%'], i2)
+  else
+    match items[i2]? with
+    | none => throw (fmtErr (.notEnough items.length)).toErr
+    | some t =>
+      let v ← rec (.force t d)
+      let fv ← fmtItem rec c v d
+      match fmtRender c fw prec fv with
+      | .ok s => pure (s, i2 + 1)
+      | .error e => throw e.toErr
+
+/-- one part of the format string on an array: the new `array_i` and the output so far -/
+def fmtArrayPart (p : Format.Part) (items : List TId) (i : Nat) (out : List Char) (d : Nat) : M (Nat × List Char) :=
+  match p with
+  | .lit s => pure (i, out ++ s)
+  | .code c => do
+    let r ← fmtArrayCode rec c items i d
+    pure (r.2, out ++ r.1)
+
+/-- `want_format_array`: the parts in order; items left over at the end are an error (and are not forced) -/
+def fmtArray (parts : List Format.Part) (items : List TId) (d : Nat) : M Value := do
+  let mut st : Nat × List Char := (0, [])
+  for p in parts do
+    st ← fmtArrayPart rec p items st.1 st.2 d
+  if st.1 < items.length then throw (fmtErr (.tooMany st.1 items.length)).toErr
+  pure (.str (String.ofList st.2))
+
+/-- one directive on an object (`object_1` → `StdFormatCode` → `object_2`): the asserts of the object are checked
+    before the field is forced -/
+def fmtObjectCode (c : Format.Code) (o : OId) (d : Nat) : M (List Char) := do
+  let fw ← match Format.objWidth c.fw .objStarWidth with
+    | .ok n => pure n
+    | .error e => throw (fmtErr e).toErr
+  let prec ← match Format.objWidth c.prec .objStarPrec with
+    | .ok n => pure n
+    | .error e => throw (fmtErr e).toErr
+  if c.conv == .pct then pure (Format.padField c.flags.left fw ['%'])
+  else
+    match c.mkey with
+    | none => throw (fmtErr .objNeedKey).toErr
+    | some k =>
+      match ← fieldThunk o 0 (String.ofList k) with
+      | none => throw (fmtErr (.objMissingField k)).toErr
+      | some t =>
+        let _ ← rec (.asserts o d)
+        let v ← rec (.force t d)
+        let fv ← fmtItem rec c v d
+        match fmtRender c fw prec fv with
+        | .ok s => pure s
+        | .error e => throw e.toErr
+
+/-- one part of the format string on an object -/
+def fmtObjectPart (p : Format.Part) (o : OId) (out : List Char) (d : Nat) : M (List Char) :=
+  match p with
+  | .lit s => pure (out ++ s)
+  | .code c => do pure (out ++ (← fmtObjectCode rec c o d))
+
+/-- `want_format_object` -/
+def fmtObject (parts : List Format.Part) (o : OId) (d : Nat) : M Value := do
+  let mut out : List Char := []
+  for p in parts do
+    out ← fmtObjectPart rec p o out d
+  pure (.str (String.ofList out))
+
+/-- the types of the forced arguments are checked and the result is computed by the (pure) `run`; array results are
+    allocated; `elems`: the elements of one argument are forced and checked one by one in between; `fmt`: the second
+    argument of `std.format` is an array, an object, or a single value (an array of one finished thunk) -/
+def pureFinish (spec : PureSpec) (vals : List Value) (d1 : Nat) : M Value :=
+  match spec.run (vals.map Value.view) with
+  | .error e => throw e.toErr
+  | .ok (.done out) => pureOut out
+  | .ok (.elems i item finish) =>
+    match vals[i]? with
+    | some (.arr items) => do
+      let bytes ← forceBytes rec items item d1
+      match finish bytes with
+      | .ok out => pureOut out
+      | .error e => throw e.toErr
+    | _ => throw (.unsupported "pure builtin: the element argument is not an array")
+  | .ok (.fmt parts) =>
+    match vals[(1 : Nat)]? with
+    | some (.arr items) => fmtArray rec parts items d1
+    | some (.obj o) => fmtObject rec parts o d1
+    | some v => do
+      let t ← allocThunk (.done v)
+      fmtArray rec parts [t] d1
+    | none => throw (.unsupported "pure builtin: std.format without values")
+
+/-- `do_binary_op`: `%` with a string on the left is `std.format` (under the `Expr` trace item of the operator);
+    everything else as before -/
+def binaryOp3 (op : BinOp) (lhs rhs : Value) (d : Nat) (hasSpan : Bool) : M Value :=
+  match op, lhs with
+  | .rem, .str _ => do
+    if hasSpan then checkDepth cfg (d + 1)
+    pureFinish rec spec_format [lhs, rhs] (if hasSpan then d + 1 else d)
+  | _, _ => binaryOp cfg rec op lhs rhs d hasSpan
+
+/-- a pure builtin: the arguments are forced in order (and coerced to strings for `std.escapeString*`), then
+    `pureFinish` -/
+def std_pure (spec : PureSpec) (ts : List TId) (d1 : Nat) : M Value := do
+  let forced ← forceAll rec ts d1
+  let vals ← if spec.coerce then coerceAll rec forced d1 else pure forced
+  pureFinish rec spec vals d1
+
 /-- the builtins added after `std.makeArray` (they need the frame limit); the others as before -/
 def builtinCall2 (b : Builtin) (ts : List TId) (d1 : Nat) : M Value :=
   match b, ts with
@@ -1244,6 +1522,13 @@ def builtinCall2 (b : Builtin) (ts : List TId) (d1 : Nat) : M Value :=
   | .set, [t0] => std_sortSet cfg rec true t0 none d1
   | .set, [t0, t1] => std_sortSet cfg rec true t0 (some t1) d1
   | b, ts => builtinCall rec b ts d1
+
+/-- the pure builtins through `std_pure` (`check_num_args`: the number of argument thunks is the arity); the others as before -/
+def builtinCall3 (b : Builtin) (ts : List TId) (d1 : Nat) : M Value :=
+  match pureBuiltin b with
+  | some spec =>
+    if ts.length = spec.arity then std_pure rec spec ts d1 else throw (.internal "builtin arity")
+  | none => builtinCall2 cfg rec b ts d1
 
 /-- the computation of a pending thunk (`State::DoThunk` on `ThunkState::Pending`) -/
 def thunkBody (p : Pending) (d : Nat) : M Value :=
@@ -1616,7 +1901,7 @@ def step : Task → M Value
       | op =>
         let av ← rec (.eval a env false d)
         let bv ← rec (.eval b env false d)
-        binaryOp cfg rec op av bv d true
+        binaryOp3 cfg rec op av bv d true
     | .unary op a => do
       let av ← rec (.eval a env false d)
       match op, av with
@@ -1657,7 +1942,7 @@ def step : Task → M Value
         ts := ts ++ [← newThunk ae env]
       checkDepth cfg (d + 1)
       let d1 := d + 1
-      builtinCall2 cfg rec b ts d1
+      builtinCall3 cfg rec b ts d1
 
 end
 
